@@ -356,15 +356,36 @@ def r20_11(chk, P):
     import absint
     from rules import common
     n = 0
-    for F in P.functions():
-        if not F.file.endswith('vorbisfile.c') or F.entry is None:
-            continue
+    helper_sites = []
+    work = [(F, None) for F in P.functions() if F.file.endswith('vorbisfile.c') and F.entry is not None]
+    done_helpers = set()
+    wi = 0
+    while wi < len(work):
+        F, forced = work[wi]
+        wi += 1
         sites = []
         defs = common.single_defs(F)
-        for c in F.calls():
-            if F.ex[c]['callee'].get('d') not in ('ov_pcm_seek', 'ov_pcm_seek_page') or len(F.ex[c]['c']) < 2:
+        if forced is not None:
+            sites = [(forced[0], F.strip_casts(F.ex[forced[0]]['c'][1]))]
+        for c in ([] if forced is not None else F.calls()):
+            helper_arg = None
+            if F.ex[c]['callee'].get('d') not in ('ov_pcm_seek', 'ov_pcm_seek_page'):
+                # a file-local helper that hands one of its parameters on to the seek (one level)
+                G = P.get(F.ex[c]['callee'].get('d') or '', F)
+                if G is None or not G.static or G.entry is None or not G.file.endswith('vorbisfile.c'):
+                    continue
+                for c2 in G.calls():
+                    if G.ex[c2]['callee'].get('d') in ('ov_pcm_seek', 'ov_pcm_seek_page') and len(G.ex[c2]['c']) > 1:
+                        a2 = G.ex[G.strip_casts(G.ex[c2]['c'][1])]
+                        if a2['k'] == 'ref' and a2['decl'].get('kind') == 'param':
+                            j = [i_ for i_, p_ in enumerate(G.params) if p_['id'] == a2['decl']['id']]
+                            if j and j[0] < len(F.ex[c]['c']):
+                                helper_arg = (G, c2, j[0])
+                if helper_arg is None:
+                    continue
+            if len(F.ex[c]['c']) < 2:
                 continue
-            a = F.strip_casts(F.ex[c]['c'][1])
+            a = F.strip_casts(F.ex[c]['c'][helper_arg[2] if helper_arg else 1])
             an = F.ex[a]
             if an['k'] != 'ref' or an['decl'].get('kind') != 'var':
                 continue
@@ -385,8 +406,15 @@ def r20_11(chk, P):
                     r = F.ex[F.strip_casts(rhs)]
                     if r['k'] == 'member' and r.get('record') == VF and r['field'] == 'pcm_offset':
                         from_handle = True
-            if from_handle:
+            if from_handle and helper_arg is not None:
+                helper_sites.append(helper_arg)
+            elif from_handle:
                 sites.append((c, a))
+        for (G, c2, j) in helper_sites:
+            if (G.name, c2) not in done_helpers:
+                done_helpers.add((G.name, c2))
+                work.append((G, (c2, j)))
+        helper_sites = []
         if not sites:
             continue
         totals = set()
